@@ -105,6 +105,40 @@ Proof.
 Qed.
 Print Assumptions C14_immutable_wrapper_tags.
 
+(* The same one tag at a time, for a registry that has other clients besides the wrapper's user:
+   all that is asked of the backend is asked for the tag (r, t) alone - ResolveTag r t answers from
+   the binding of (r, t), and serving an operation that is neither a delete nor a push under
+   (r, t) leaves that binding alone, whatever else happens to the registry while it is served
+   (somebody else's push under another tag landing between two calls of the wrapper).  Then the
+   binding of (r, t) survives every call through the wrapper, a successful push under (r, t)
+   binds it to the digest of the pushed bytes, and once ResolveTag r t answered digest d it
+   answers d after every continuation. *)
+Theorem C14_immutable_wrapper_tag_shared :
+  forall (B : Type) (bstep : registry B) hash (r t : bytes) (tagv : B -> option bytes),
+  (forall st, match tagv st with
+              | Some d => exists de, snd (bstep st (ResolveTag r t)) = Ok (RDesc de) /\ d_digest de = d
+              | None => exists e, snd (bstep st (ResolveTag r t)) = Err e
+              end) ->
+  (forall st o, is_delete_op o = false -> touches o r t = false -> tagv (fst (bstep st o)) = tagv st) ->
+  (forall st o d, tagv st = Some d -> tagv (fst (fst (imm_step bstep hash st o))) = Some d) /\
+  (forall st c m de, t <> [] ->
+     snd (fst (imm_step bstep hash st (PushManifest r t c m))) = Ok (RDesc de) ->
+     d_digest de = hash c /\ tagv (fst (fst (imm_step bstep hash st (PushManifest r t c m)))) = Some (hash c)) /\
+  (forall h1 h2 st de,
+     let '(s1, _) := trun (imm_step bstep hash) st h1 in
+     snd (fst (imm_step bstep hash s1 (ResolveTag r t))) = Ok (RDesc de) ->
+     let s1' := fst (fst (imm_step bstep hash s1 (ResolveTag r t))) in
+     let '(s2, _) := trun (imm_step bstep hash) s1' h2 in
+     exists de', snd (fst (imm_step bstep hash s2 (ResolveTag r t))) = Ok (RDesc de') /\
+                 d_digest de' = d_digest de).
+Proof.
+  intros B bstep hash r t tagv H1 H2. split; [|split].
+  - intros. now apply (imm_binding_kept_at bstep hash r t tagv H1 H2).
+  - intros. now apply (imm_push_binds_at bstep hash r t tagv H1 H2).
+  - intros. apply (imm_tag_forever_at bstep hash r t tagv H1 H2).
+Qed.
+Print Assumptions C14_immutable_wrapper_tag_shared.
+
 (* The in-memory registry (any configuration) meets those two hypotheses with
    tagv = digest of the tag table entry: the previous theorem applies to Immutable(ocimem). *)
 Theorem C14_immutable_mem_tags : forall hash vd vr vt di dx cfg h1 h2 st r t de,
